@@ -113,6 +113,7 @@ package logic
 //@ func (*ThrowEventSatisfier).Satisfy
 //@   prop C14
 //@   flag paths
+//@   flag countresult
 //@   requires tesShape(satisfier)
 //@   requires tesDistinct(satisfier)
 //@   requires tesNoneFull(satisfier)
